@@ -665,7 +665,9 @@ impl Monitor for C20 {
     fn workload(&self, w: &Work, emit: &mut dyn FnMut(Case)) -> J {
         let n = w.share(40_000, 3_000_000);
         let mut rng = w.rng("C20", 1);
-        let mut cfg = GenCfg::std(&['a', 'b', 'a', 'b', 'A', '\n']);
+        // letters beyond the first hundred code points as well: the optimiser's disjointness test
+        // gives up after scanning that many characters of a class
+        let mut cfg = GenCfg::std(&['a', 'b', 'a', 'b', 'A', '\n', 'x', '\u{e9}']);
         cfg.props = false;
         for k in 0..n {
             let ast = if k % 4 == 0 { gen_shortcut(&mut rng, &cfg) } else { gen_pattern(&mut rng, &cfg) };
@@ -682,7 +684,7 @@ impl Monitor for C20 {
                 }
                 let aux = format!("{}:{}", idx, rng.below(16));
                 for _ in 0..2 {
-                    let inp = gen_input(&mut rng, &ast, &['a', 'b', '\n', 'A'], 7);
+                    let inp = gen_input(&mut rng, &ast, &['a', 'b', '\n', 'A', 'x', '\u{e9}'], 7);
                     let mut c = Case::new(&ast, fl, &inp);
                     c.aux = Some(aux.clone());
                     emit(c);
